@@ -35,9 +35,9 @@ ASSUMPTIONS = [
 TRUSTED = [
     "C14: probe components/callables and their logs; logging wrappers installed over "
     "vivarium.framework.values.rescale_post_processor / union_post_processor for the duration of a case; the registry is "
-    "read back through the ValuesManager's items() and the public attributes of Pipeline (source, mutators, combiner, "
-    "post_processor), the manager itself through the private handle builder.value._manager (defensively); step sizes "
-    "through builder.time.simulant_step_sizes() / step_size()",
+    "read back through the public interface only: builder.value.get_value(name) and the documented attributes of "
+    "Pipeline (source, mutators, combiner, post_processor; unreadable -> snapshot skipped and counted); step sizes "
+    "through builder.time.simulant_step_sizes() / step_size(); no private attribute of /repo/src is read",
 ]
 CLAIM = {
     "technique": "Coq proof over a logging Gallina model of the value pipelines + Coq-decided correspondence on real contexts",
@@ -276,22 +276,35 @@ def err_code(e):
     return 3
 
 
-def read_registry(manager):
-    """{pipe id: [source id|None, [mutator ids], combiner 0/1/None, post kind|None]} of the probe pipelines present."""
+def read_registry(get_value, touched):
+    """{pipe id: [source id|None, [mutator ids], combiner 0/1/None, post kind|None]} of the probe pipelines that some
+    operation has named so far - read through the PUBLIC interface: builder.value.get_value(name) and the documented
+    attributes of Pipeline.  (get_value on a name that an operation has already named changes nothing that is
+    registered: C14_get_value_inert.)  Returns None when the attributes cannot be read (counted, never a failure)."""
     from vivarium.framework import values
     out = {}
-    inv = {v: k for k, v in NAMES.items()}
-    for name, pipe in list(manager.items()):
-        if name not in inv:
-            continue
-        src = getattr(pipe.source, "vid", None) if pipe.source is not None else None
-        if pipe.source is not None and src is None:
-            src = -1
-        muts = [getattr(m, "vid", -1) for m in pipe.mutators]
-        comb = 0 if pipe.combiner is values.replace_combiner else 1 if pipe.combiner is values.list_combiner else None
-        post = getattr(pipe.post_processor, "kind", ["unknown"]) if pipe.post_processor is not None else None
-        out[inv[name]] = [src, muts, comb, post]
+    try:
+        for n in sorted(touched):
+            pipe = get_value(NAMES[n])
+            source, mutators = pipe.source, list(pipe.mutators)
+            combiner, post_processor = pipe.combiner, pipe.post_processor
+            src = None if source is None else source_id(source)
+            muts = [getattr(m, "vid", -1) for m in mutators]
+            comb = 0 if combiner is values.replace_combiner else 1 if combiner is values.list_combiner else None
+            post = getattr(post_processor, "kind", ["unknown"]) if post_processor is not None else None
+            out[n] = [src, muts, comb, post]
+    except AttributeError:
+        return None
     return out
+
+
+def source_id(source):
+    """probe callables carry their id; a Pipeline used as a source is 100 + the id of the pipeline it is"""
+    from vivarium.framework.values import Pipeline
+    if isinstance(source, Pipeline):
+        inv = {v: k for k, v in NAMES.items()}
+        return 100 + inv.get(getattr(source, "name", None), 99)
+    return getattr(source, "vid", -1)
 
 
 def run_context(case):
@@ -303,7 +316,7 @@ def run_context(case):
     rec = Recorder()
     reg_log = []            # one entry per registration / look-up, in execution order
     handles = {}            # pipe id -> Pipeline (from the caller component's get_value)
-    shared = {"manager": None, "sss": None, "gstep": None, "hook": None}
+    shared = {"get_value": None, "sss": None, "gstep": None, "hook": None, "touched": set()}
 
     def post_of(spec):
         if spec is None:
@@ -329,8 +342,8 @@ def run_context(case):
             return self._cname
 
         def setup(self, builder):
-            if shared["manager"] is None:
-                shared["manager"] = getattr(builder.value, "_manager", None)
+            if shared["get_value"] is None:
+                shared["get_value"] = builder.value.get_value
                 shared["sss"] = builder.time.simulant_step_sizes()
                 shared["gstep"] = builder.time.step_size()
             for act in self._actions:
@@ -339,9 +352,17 @@ def run_context(case):
                     if act[0] == "prod":
                         _, n, sid = act
                         sp = case["sources"][str(sid)]
-                        fn = flavoured(make_source(rec, sid, sp), sp["flavour"], self, sp.get("truthy", True))
+                        if sp.get("nested"):
+                            # the source is another pipeline itself: fetch it first (a look-up, logged as one)
+                            q = sp["nested"]
+                            fn = builder.value.get_value(NAMES[q])
+                            shared["touched"].add(q)
+                            reg_log.append({"act": ["get", q], "code": 0, "err": None,
+                                            "snap": read_registry(shared["get_value"], shared["touched"])})
+                        else:
+                            fn = flavoured(make_source(rec, sid, sp), sp["flavour"], self, sp.get("truthy", True))
                         comb = values.replace_combiner if sp["comb"] == 0 else values.list_combiner
-                        if sp["post"] == ["rescale"] and sp["comb"] == 0 and sp.get("via_rate"):
+                        if sp["post"] == ["rescale"] and sp["comb"] == 0 and sp.get("via_rate") and not sp.get("nested"):
                             builder.value.register_rate_producer(NAMES[n], fn)
                         else:
                             builder.value.register_value_producer(NAMES[n], fn, preferred_combiner=comb,
@@ -354,8 +375,9 @@ def run_context(case):
                         handles[act[1]] = builder.value.get_value(NAMES[act[1]])
                 except Exception as e:
                     err = e
+                shared["touched"].add(act[1])
                 reg_log.append({"act": act, "code": err_code(err), "err": type(err).__name__ if err else None,
-                                "snap": read_registry(shared["manager"])})
+                                "snap": read_registry(shared["get_value"], shared["touched"])})
             if self._cname == "c14_caller":
                 builder.event.register_listener("time_step", self.on_ts)
 
@@ -406,7 +428,8 @@ def run_context(case):
                 trace, rec.cur = rec.cur, None
                 calls_out.append({"ci": ci, "code": err_code(err), "err": f"{type(err).__name__}: {err}"[:160] if err else None,
                                   "trace": trace, "raw": out, "value": canon_value(out) if err is None else None,
-                                  "steps": steps, "gstep": gstep, "snap": read_registry(shared["manager"])})
+                                  "steps": steps, "gstep": gstep,
+                                  "snap": read_registry(shared["get_value"], shared["touched"])})
 
         do_calls(0)
         fired = []
@@ -426,6 +449,12 @@ def run_context(case):
 # ----------------------------------------------------------------------------------------------------------------
 # exact reference arithmetic for the direct oracle (independent of the Coq model)
 # ----------------------------------------------------------------------------------------------------------------
+def model_sid(case, sid):
+    """the id the model (and the registry read-back) uses for a source: 100 + q for 'pipeline q itself'"""
+    sp = case["sources"][str(sid)]
+    return 100 + sp["nested"] if sp.get("nested") else sid
+
+
 def fl_of(x):
     """binary64 -> (mantissa, exponent) with |mantissa| in [2^52, 2^53) or (0, 0)"""
     x = float(x)
@@ -455,7 +484,15 @@ def expected_value(case, state, c):
     oracle's scope (then only the generic checks apply)."""
     sp = case["sources"][str(state["src"])]
     idx = c["idx"]
-    if sp["list"]:
+    if sp.get("nested"):
+        inner = c["_states"].get(sp["nested"])
+        if inner is None or inner["src"] is None:
+            return None
+        iv = expected_value(case, inner, dict(c, skip=False))
+        if iv is None or iv[0] != "exact":
+            return None
+        v = iv[1]
+    elif sp["list"]:
         v = ("many", [entry_q(e, idx) for e in sp["entries"]])
     else:
         v = entry_q(sp["entries"][0], idx)
@@ -520,6 +557,54 @@ def close(f, x):
     return dev <= 4
 
 
+def expect_events(case, state, n, skip):
+    """what a call of pipeline n must evaluate, in order: [("src", id) | ("mod", id) | ("post", kind)], or None when a
+    pipeline down the chain has no source (the call must then be rejected with nothing evaluated)"""
+    st = state.get(n)
+    if st is None or st["src"] is None:
+        return None
+    sp = case["sources"][str(st["src"])]
+    if sp.get("nested"):
+        ev = expect_events(case, state, sp["nested"], False)
+        if ev is None:
+            return None
+    else:
+        ev = [("src", st["src"])]
+    ev = ev + [("mod", m) for m in st["mods"]]
+    if sp["post"] is not None and not skip:
+        ev.append(("post", tuple(sp["post"])))
+    return ev
+
+
+def oracle_nested(case, state, n, spec, c, want_args):
+    """a pipeline whose source is another pipeline: the inner evaluation is embedded once, then the outer stages"""
+    ev = expect_events(case, state, n, spec["skip"])
+    tr = c["trace"]
+    if ev is None:
+        if c["code"] != 1 or tr:
+            return False, f"call {c['ci']}: a pipeline down the chain of {n} has no source, yet outcome {c['err'] or 'returned'} / {len(tr)} evaluations"
+        return True, ""
+    if c["code"] == 1:
+        return False, f"call {c['ci']}: fully sourced chain of pipeline {n} raised {c['err']}"
+    if c["code"] != 0:
+        return True, ""
+    got = [(t["k"], t["id"]) if t["k"] != "post" else ("post", tuple(t["kind"])) for t in tr]
+    if got != ev:
+        return False, f"call {c['ci']}: nested evaluation {got} differs from {ev} (inner pipeline once, then outer stages)"
+    for t in tr:
+        if t["k"] != "post" and t["args"] != want_args:
+            return False, f"call {c['ci']}: {t['k']} {t['id']} received {t['args']} instead of {want_args}"
+    exp = expected_value(case, state[n], dict(spec, _steps=c["steps"], _gstep=c["gstep"], _states=state))
+    if exp is not None and exp[0] == "exact":
+        v = c["value"]
+        if v[0] == "other":
+            return False, f"call {c['ci']}: returned {v[1]}"
+        g = ("many", [atom_q(a) for a in v[1]]) if v[0] == "many" else atom_q(v)
+        if g != exp[1]:
+            return False, f"call {c['ci']}: value {g} differs from inner value -> outer modifiers -> outer post {exp[1]}"
+    return True, ""
+
+
 def oracle(case, reg_log, calls):
     """The property statement on the observed registrations, logs and values."""
     state = {}              # pipe id -> {"src": sid|None, "mods": [...]} as the property prescribes
@@ -531,7 +616,7 @@ def oracle(case, reg_log, calls):
                 out[n] = [None, list(st["mods"]), None, None]
             else:
                 sp = case["sources"][str(st["src"])]
-                out[n] = [st["src"], list(st["mods"]), sp["comb"], sp["post"]]
+                out[n] = [model_sid(case, st["src"]), list(st["mods"]), sp["comb"], sp["post"]]
         return out
 
     def snap_matches(snap):
@@ -565,12 +650,12 @@ def oracle(case, reg_log, calls):
             st["mods"].append(act[2])
         elif e["code"] != 0:
             return False, f"get_value({n}) raised {e['err']}"
-        if not snap_matches(e["snap"]):
+        if e["snap"] is not None and not snap_matches(e["snap"]):
             return False, f"after {act}: registry {e['snap']} is not {want_snap()} (second source must change nothing)"
     for c, spec in zip(calls, case["calls"]):
         n = spec["pipe"]
         st = state.get(n, {"src": None, "mods": []})
-        if not snap_matches(c["snap"]):
+        if c["snap"] is not None and not snap_matches(c["snap"]):
             return False, f"call {c['ci']} changed the registry: {c['snap']}"
         tr = c["trace"]
         want_args = [spec["idx"], list(spec["extras"]), sorted([KWIDS[k], v] for k, v in (spec.get("kwargs") or {}).items())]
@@ -580,6 +665,11 @@ def oracle(case, reg_log, calls):
                                f"{len(tr)} callables evaluated (expected DynamicValueError, none)")
             continue
         sp = case["sources"][str(st["src"])]
+        if sp.get("nested"):
+            o, m_ = oracle_nested(case, state, n, spec, c, want_args)
+            if not o:
+                return False, m_
+            continue
         nsrc = [t for t in tr if t["k"] == "src"]
         if c["code"] == 1:
             return False, f"call {c['ci']}: sourced pipeline {n} raised {c['err']}"
@@ -610,7 +700,7 @@ def oracle(case, reg_log, calls):
             return False, f"call {c['ci']}: post-processor {posts[0]['kind']} not last / not the registered one"
         if applies and sp["comb"] == 0 and posts[0]["val"] != prev:
             return False, f"call {c['ci']}: post-processor did not receive the last stage's output"
-        spec2 = dict(spec, _steps=c["steps"], _gstep=c["gstep"])
+        spec2 = dict(spec, _steps=c["steps"], _gstep=c["gstep"], _states=state)
         exp = expected_value(case, st, spec2)
         if exp is None:
             continue
@@ -710,19 +800,21 @@ def render(case, reg_log, calls):
     items = []
     for e in reg_log:
         act = e["act"]
-        if any(s[0] == -1 or -1 in s[1] or (s[3] is not None and s[3][0] == "unknown") or (s[0] is not None and s[2] is None)
-               for s in e["snap"].values()):
+        if e["snap"] is not None and any(
+                s[0] == -1 or -1 in s[1] or (s[3] is not None and s[3][0] == "unknown") or (s[0] is not None and s[2] is None)
+                for s in e["snap"].values()):
             return None
         if act[0] == "prod":
             sp = case["sources"][str(act[2])]
-            op = f"RegisterProducer {cz(act[1])} {cz(act[2])} {ccomb(sp['comb'])} {cpost(sp['post'])}"
+            op = f"RegisterProducer {cz(act[1])} {cz(model_sid(case, act[2]))} {ccomb(sp['comb'])} {cpost(sp['post'])}"
         elif act[0] == "mod":
             op = f"RegisterModifier {cz(act[1])} {cz(act[2])}"
         else:
             op = f"GetValue {cz(act[1])}"
         # Coq sees the touched pipeline after every operation and the whole registry after the last one (the python
         # oracle compares the whole registry every time)
-        snap = e["snap"] if e is reg_log[-1] else {k: v for k, v in e["snap"].items() if k == act[1]}
+        full = e["snap"] or {}            # {} when the registry could not be read back (nothing to compare)
+        snap = full if e is reg_log[-1] else {k: v for k, v in full.items() if k == act[1]}
         items.append(cpair(f"XOp ({op})", f"BReg {cz(e['code'])} {csnap(snap)}"))
     for c, spec in zip(calls, case["calls"]):
         for t in c["trace"]:
@@ -765,6 +857,8 @@ def run_case(case):
     tags = set()
     for e in reg_log:
         tags.add(f"reg_{e['act'][0]}_code{e['code']}")
+        if e["snap"] is None:
+            tags.add("registry_unreadable_skipped")
         if e["act"][0] == "prod" and e["code"] == 1 and any(
                 not case["sources"][str(x["act"][2])].get("truthy", True) for x in reg_log
                 if x["act"][0] == "prod" and x["act"][1] == e["act"][1] and x["code"] == 0):
@@ -776,6 +870,12 @@ def run_case(case):
             tags.add("call_skip")
         if spec.get("kwargs"):
             tags.add("call_kwargs")
+        if len([t for t in c["trace"] if t["k"] == "src"]) == 1 and c["trace"][0]["k"] == "src":
+            owner = next((e["act"][1] for e in reg_log if e["act"][0] == "prod" and e["act"][2] == c["trace"][0]["id"]), None)
+            if owner is not None and owner != spec["pipe"]:
+                tags.add("call_nested_pipeline_source")
+        if not c["trace"] and c["code"] == 1 and any(e["act"][0] == "mod" and e["act"][1] == spec["pipe"] for e in reg_log):
+            tags.add("call_unsourced_with_modifiers_rejected")
         if any(t["k"] == "post" and t["kind"] == ["union"] and t["val"][0] == "vec" for t in c["trace"]):
             tags.add("call_union_over_series")
         if any(t["k"] == "src" and not case["sources"][str(t["id"])].get("truthy", True) for t in c["trace"]):
@@ -848,7 +948,8 @@ def gen_case(rng: random.Random):
                 next_cid[0] += 1
                 posts[str(cid)] = {"c": rng.choice(A_CHOICES), "d": rng.choice(B_CHOICES), "truthy": rng.random() < 0.6}
                 post = ["custom", cid]
-            sources[str(sid)] = {"list": is_list, "entries": entries, "comb": comb, "post": post,
+            nested = rng.randrange(1, p) if p > 1 and rng.random() < 0.55 else None
+            sources[str(sid)] = {"nested": nested, "list": is_list, "entries": entries, "comb": comb, "post": post,
                                  "flavour": rng.choice(["func", "func", "method", "obj"]), "truthy": rng.random() < 0.8,
                                  "via_rate": rng.random() < 0.5}
             actions.append((p, ["prod", p, sid]))
@@ -874,6 +975,20 @@ def gen_case(rng: random.Random):
     for act in executed:
         if act[0] == "prod" and act[1] not in first:
             first[act[1]] = act[2]
+    # a pipeline may be the source of another one; to keep the arithmetic exact, only along chains without the rate /
+    # union post-processors (otherwise the producer falls back to its ordinary probe source)
+    def chain_plain(p, depth=0):
+        sp = sources.get(str(first.get(p)))
+        if sp is None:
+            return True
+        if sp["post"] in (["rescale"], ["union"]):
+            return False
+        return chain_plain(sp["nested"], depth + 1) if sp.get("nested") else True
+    for sid, sp in sources.items():
+        if sp.get("nested"):
+            owner = next(act[1] for act in executed if act[0] == "prod" and act[2] == int(sid))
+            if sp["post"] in (["rescale"], ["union"]) or not chain_plain(sp["nested"]) or first.get(owner) != int(sid):
+                sp["nested"] = None
     for act in executed:
         if act[0] == "mod":
             p = act[1]
@@ -911,6 +1026,48 @@ def gen_case(rng: random.Random):
             "mods": mods, "posts": posts, "calls": calls}
 
 
+def shrink_case(case):
+    """Smaller variants of a pipeline case: drop a call, drop a registration (never the winning one of several
+    producers: the modifiers follow its calling convention), drop an empty component, no step modifier, fewer steps,
+    shorter index / no extras / no keyword arguments in a call."""
+    import copy
+    for i in range(len(case["calls"])):
+        if len(case["calls"]) > 1:
+            c = copy.deepcopy(case); del c["calls"][i]; yield c
+    executed = [act for comp in case["components"] for act in comp["actions"]]
+    prods = {}
+    for act in executed:
+        if act[0] == "prod":
+            prods.setdefault(act[1], []).append(act[2])
+    for ci, comp in enumerate(case["components"]):
+        if comp["name"] == "c14_caller":
+            continue
+        for ai, act in enumerate(comp["actions"]):
+            if act[0] == "prod" and len(prods[act[1]]) > 1 and prods[act[1]][0] == act[2]:
+                continue
+            c = copy.deepcopy(case); del c["components"][ci]["actions"][ai]; yield c
+        if not comp["actions"] and len(case["components"]) > 2:
+            c = copy.deepcopy(case); del c["components"][ci]; yield c
+    if case["stepmod"]:
+        c = copy.deepcopy(case); c["stepmod"] = None; yield c
+    if case["nsteps"] > 0:
+        c = copy.deepcopy(case); c["nsteps"] -= 1
+        for call in c["calls"]:
+            if call["when"] >= 2 + c["nsteps"] or (c["nsteps"] == 0 and call["when"] == 1):
+                call["when"] = 0
+        yield c
+    for i, call in enumerate(case["calls"]):
+        if call["idx"] and len(call["idx"]) > 1:
+            c = copy.deepcopy(case); c["calls"][i]["idx"] = call["idx"][: len(call["idx"]) // 2]; yield c
+            c = copy.deepcopy(case); c["calls"][i]["idx"] = call["idx"][len(call["idx"]) // 2:]; yield c
+        if call["extras"]:
+            c = copy.deepcopy(case); c["calls"][i]["extras"] = []; yield c
+        if call.get("kwargs"):
+            c = copy.deepcopy(case); c["calls"][i]["kwargs"] = {}; yield c
+        if call["when"] != 0:
+            c = copy.deepcopy(case); c["calls"][i]["when"] = 0; yield c
+
+
 def _load_corpus():
     import glob
     import json
@@ -925,7 +1082,7 @@ def _load_corpus():
 
 def streams(tier):
     return [Stream(name="pipes", imports="From Viv Require Import Common Pipeline.", check="check_case", gen=gen_case,
-                   run=run_case, n_quick=200, n_thorough=2400, corpus=_load_corpus,
+                   run=run_case, n_quick=200, n_thorough=2400, corpus=_load_corpus, shrink=shrink_case,
                    doc="registrations, registry snapshots, call logs and values of probe pipelines in real contexts")]
 
 
